@@ -31,7 +31,7 @@ theorem splitScheme_assemble (nl p q : Str) :
   have : findIdx (· = ':') ("gemini://".toList ++ nl ++ p ++ if q.isEmpty = true then [] else '?' :: q) = some 6 := by
     simp [findIdx]
   rw [this]
-  simp [schemeChar, lowerAscii, gemini, Char.isAlphanum, Char.isAlpha, Char.isDigit, Char.isUpper, Char.isLower]
+  simp [schemeOk, firstIsAsciiAlpha, schemeChar, lowerAscii, gemini, Char.isAlphanum, Char.isAlpha, Char.isDigit, Char.isUpper, Char.isLower]
 
 theorem splitNetloc_clean {nl p q' : Str} (h1 : nl.all (fun c => !isDelim c) = true)
     (hp : p = [] ∨ p.head? = some '/') (hq : q' = [] ∨ q'.head? = some '?') :
